@@ -21,6 +21,18 @@ CLAIMED["C13"] = dict(technique="must-hold lockset dataflow with caller-holds-lo
 CLAIMED["C04"] = dict(technique="constant inequalities from types/consts + cross-configuration sibling agreement (amd64 vs arm64 load, build-constraint evaluation over all GOARCH) + path-condition comparison of sort/merge guards + value provenance",
   text="Decides structural necessary conditions of rank order: key capacity vs. accepted criteria and slot layout, agreement of the two build-tagged comparators (incl. endianness and polarity), per-partition sort and k-way merge sharing comparator/tac/sorted condition, score first, partial results placed by partition index. Does not decide rank key values nor pass-through index arithmetic.",
   note="Loads /repo twice (linux/amd64 and linux/arm64); byte order per GOARCH is a fixed table; `go tool dist list` supplies the GOARCH universe.")
+CLAIMED["C01"] = dict(technique="table agreement (const set vs map stores vs lookup key) + value provenance + path conditions on cache scope",
+  text="Decides three structural necessary conditions of exact filtering: complete and injective term-kind registry selected by term.typ; per-term (not per-query) case/normalisation/text handed to the matcher and derived per token; cache scope guards (cache hit returned / result added only when cacheable, BuildPattern clears cacheable for OR/negated/non-base terms, cache key only from single non-negated base terms). Does not decide the grammar's semantics.",
+  note="go/ssa trusted; short-circuit conditions recognised in their branch-threaded shape (x/tools v0.29.0 emits that shape for if-conditions).")
+CLAIMED["C18"] = dict(technique="writer/reader census + path conditions + provenance",
+  text="Decides five structural necessary conditions of the history contract: closed set of writers of the history file and of readers/writers of in-memory edits; append only on exit code<=1 or become; guarded cursor moves; truncation computed from maxSize; override records edits unconditionally. Does not decide file contents.",
+  note="History file identified by History.path / NewHistory's path parameter; go/ssa trusted.")
+CLAIMED["C19"] = dict(technique="role agreement between option parser and walker callback (path conditions) + guarded returns + provenance of skip-list entries",
+  text="Decides three structural necessary conditions of the walker contract: each documented flag word sets the field that plays that role in readFiles and every parsed flag is consumed; SkipDir only for directories; suffix-matched skip entries start with the separator. Does not decide which paths are listed.",
+  note="Roles are recognised from readFiles' own use of the fields (fastwalk Follow, dot-name test, emit test).")
+CLAIMED["C20"] = dict(technique="dominance + must-pass-through with success-edge filtering + goroutine/channel counting + creation census + sibling agreement",
+  text="Decides six structural necessary conditions of the preview contract: cancel before every enqueue; Start→Wait and one join per helper goroutine inside one previewer iteration, single previewer; quit+kill at session end; group-leader children; unbuffered kill channel; version bump inspects the template that is run. Does not decide that the last run is for the focused line.",
+  note="Shares obligations with C14-R2/R4; go/ssa trusted.")
 NA = {
 }
 ALL = ["C%02d" % i for i in range(1, 21)]
